@@ -1,11 +1,11 @@
 (* C04 — executable model of the store-side fetch path. No proofs in this file.
-   Mirrors (as the code is NOW, i.e. with the repairs b3c921d and 2f1e999):
+   Mirrors (as the code is NOW, i.e. with the repairs b3c921d, 2f1e999 and 6d376ea):
      storeapi/docs_stream.go     batchLoader, calcChunkSize             -> batch_loop, calc_chunk
      storeapi/grpc_fetch.go      doFetch (one block per id, Ext1/Ext2)  -> stream
      fracmanager/fetcher.go      FetchDocs, sortIDs, groupIDsByFraction,
                                  fetchDocsAsync, fracFetch (panic->err) -> fetch_docs, sort_ids, group, fetch_all
      frac/info.go                IsIntersecting / Contains              -> intersecting, contains
-     seq/mids_distribution.go    midToIndex, IsIntersecting             -> d_idx (int64 wrap of MID.Time included)
+     seq/mids_distribution.go    midToIndex, IsIntersecting             -> d_idx (d_idx_v0: before 6d376ea)
      util/bitmask.go             HasBitsIn (bytewise, as written)       -> has_bits_in
      frac/sealed_index.go        findLIDs (moving left bound, bound check), LessOrEqual (block-min shortcuts,
                                  RID = MaxUint64 shortcut)              -> find_lids_gen, less_or_equal
@@ -47,8 +47,14 @@ Record dist := mkDist { d_from : N; d_to : N; d_bucket : N;   (* milliseconds *)
                         d_bin : list N }.                      (* bitmask bytes *)
 
 Definition d_size (d : dist) : N := (d_to d - d_from d) / d_bucket d + 3.
-(* MID.Time() = time.UnixMilli(int64(mid)): a MID >= 2^63 is a time before 1970 *)
+(* midToIndex (as repaired by 6d376ea): a MID beyond int64 milliseconds is later than any window *)
 Definition d_idx (d : dist) (m : N) : N :=
+  if two63 <=? m then d_size d - 1
+  else if m <? d_from d then 0
+  else if d_to d <? m then d_size d - 1
+  else (m - d_from d) / d_bucket d + 1.
+(* before 6d376ea: MID.Time() = time.UnixMilli(int64(mid)), so a MID >= 2^63 was a time before 1970: index 0 *)
+Definition d_idx_v0 (d : dist) (m : N) : N :=
   if (two63 <=? m) || (m <? d_from d) then 0
   else if d_to d <? m then d_size d - 1
   else (m - d_from d) / d_bucket d + 1.
@@ -71,16 +77,18 @@ Record frac := mkFrac { f_name : N;              (* >= 1 *)
                         f_dist : option dist;
                         f_docs : list (id * body) }.
 
-Definition intersecting (f : frac) (lo hi : N) : bool :=
+Definition intersecting_gen (idx : dist -> N -> N) (f : frac) (lo hi : N) : bool :=
   match f_docs f with
   | [] => false                                              (* DocsTotal == 0 *)
   | _ => if (hi <? f_from f) || (f_to f <? lo) then false
          else match f_dist f with
               | None => true
               | Some d => if d_bucket d =? 0 then true
-                          else has_bits_in (d_bin d) (d_idx d lo) (d_idx d hi)
+                          else has_bits_in (d_bin d) (idx d lo) (idx d hi)
               end
   end.
+Definition intersecting : frac -> N -> N -> bool := intersecting_gen d_idx.
+Definition intersecting_v0 : frac -> N -> N -> bool := intersecting_gen d_idx_v0.
 Definition contains (f : frac) (m : N) : bool := intersecting f m m.
 
 (* ------------------------------------------------------------------ sorting (sort.Sort on IDs) *)
